@@ -11,3 +11,44 @@ Example gen_rgba_ex :
   render_ctoken (generate_color shortColorName true true 305419896) =
   [114;103;98;97;40;49;56;44;53;50;44;56;54;44;46;52;55;41].
 Proof. vm_compute. reflexivity. Qed.
+
+From V Require Import C12.Cascade C12.Mangle C12.NumberCss C12.NumberSpec C12.NumberProofs.
+(* numbers: the three fixed defects' witnesses on the model *)
+Example num_ex : map (fun t => fst (mangleNumber t))
+   [[48;46;53;48]; [49;46;53;101;49;48]; [45;48;46;48]; [49;46;48]]
+   = [[46;53]; [49;46;53;101;49;48]; [45;48]; [49]].
+Proof. vm_compute. reflexivity. Qed.
+Example shift_ex : shiftDot [48;48;48] (-3) = Some [48] /\ shiftDot [49;53;48;48] (-3) = Some [49;46;53]
+  /\ mangleDimension [49;53;48;48] [109;115] = Some ([49;46;53], [115]).
+Proof. vm_compute. repeat split; reflexivity. Qed.
+Example wf_ex : wf_num [45] [48] (Some [53;48]) NoExp /\ css_number_value (render [45] [48] (Some [53;48]) NoExp) = Some (-50, -2).
+Proof. split; [repeat split; try discriminate; repeat constructor; unfold dig; lia | vm_compute; reflexivity]. Qed.
+
+(* cascade: a world and a sheet where dedupe, merge and unwrap all fire *)
+Definition ex_world : world :=
+  mkWorld (fun c => c =? 1) (fun s => negb (s =? 6)) (fun _ => true)
+          (fun s e => (s =? e)) (fun s => s).
+Definition sa := mkSel 1 true false.
+Definition sb := mkSel 2 true false.
+Definition dred := mkDecl 1 1 false 0.
+Definition dblue := mkDecl 1 2 false 0.
+(* "@media screen { a{color:red} @media screen { b{color:blue} } b{color:red} }" *)
+Definition ex_unwrap : list rule :=
+  [RMedia 1 [RSel [sa] [dred]; RMedia 1 [RSel [sb] [dblue]]; RSel [sb] [dred]]].
+Example unwrap_ex :
+  mangle_sheet ex_unwrap = [RMedia 1 [RSel [sa] [dred]; RSel [sb] [dblue]; RSel [sb] [dred]]]
+  /\ winner ex_world (flatten_list [] [] (mangle_sheet ex_unwrap)) 2 1 = Some 1
+  /\ winner ex_world (flatten_list [] [] ex_unwrap) 2 1 = Some 1.
+Proof. vm_compute. repeat split; reflexivity. Qed.
+Example merge_dedupe_ex :
+  mangle_sheet [RSel [sa] [dred]; RSel [sb] [dred]; RSel [sa] [dblue]; RSel [sa; sb] [dred]]
+  = [RSel [sa] [dblue]; RSel [sa; sb] [dred]].
+Proof. vm_compute. reflexivity. Qed.
+(* layers: the later declared layer wins for normal declarations, the earlier for important ones *)
+Example layer_ex :
+  let sheet := [mkItem true [] [1] [] []; mkItem true [] [2] [] [];
+                mkItem false [] [2] [1] [mkDecl 1 10 false 0; mkDecl 2 20 true 0];
+                mkItem false [] [1] [1] [mkDecl 1 11 false 0; mkDecl 2 21 true 0];
+                mkItem false [] [] [1] [mkDecl 3 30 false 0]] in
+  winner ex_world sheet 1 1 = Some 10 /\ winner ex_world sheet 1 2 = Some 21 /\ winner ex_world sheet 1 3 = Some 30.
+Proof. vm_compute. repeat split; reflexivity. Qed.
